@@ -274,7 +274,7 @@ LOCS = ["QUERY", "MUTATION", "SUBSCRIPTION", "FIELD", "FRAGMENT_DEFINITION", "FR
         "INPUT_FIELD_DEFINITION"]
 
 IGNORED_SEQS = [" ", "\t", ",", "\n", "\r", "\r\n", "﻿", " , ", "#c\n", "#   \x0c\r", "#\r\n",
-                "\n\n", ",,", "#\"\"\"\n", "  #{\n  "]
+                "\n\n", ",,", "#\"\"\"\n", "  #{\n  ", "#a\n#b\n", "#a\n #b\r\n\t#c\n", "#a\r#b\n", "#\n#\n"]
 
 
 def is_punct(lex):
